@@ -322,6 +322,20 @@ fn run<F: MathFunction + RenderHints>(case: &Case, cx: &mut Cx) -> CheckResult {
                 }
                 DistancePixel::Value(pv) => {
                     values += 1;
+                    // the report must follow the carried value: inside exactly
+                    // when it is negative (a NaN is not negative)
+                    if pv.is_nan() {
+                        cx.ev.count("value_pixels_carrying_nan");
+                    }
+                    ensure!(
+                        is_in == (pv < 0.0),
+                        "inside-report-wrong",
+                        "pixel ({i},{j}) of {}x{} carries the value {} but is reported {}",
+                        case.width,
+                        case.height,
+                        fl_to_string(pv),
+                        if is_in { "inside" } else { "outside" }
+                    );
                     if same(pv, v) {
                         continue;
                     }
